@@ -448,4 +448,447 @@ Section Unique.
     - eapply ents_fc_eq_trans; apply backref_del_fc.
     - unfold ix. rewrite !backref_del_uidx. reflexivity.
   Qed.
+
+  (* ================================================================ delete *)
+  Definition UInj (st : state) : Prop :=
+    forall i j, pres st i = true -> pres st j = true -> fbytes st i = fbytes st j ->
+                nonempty (fbytes st i) = true -> i = j.
+
+  (* invariant while the entities in G are being deleted *)
+  Definition DInv (G : id -> Prop) (st : state) : Prop := USound st /\ UComplete G st /\ UInj st.
+
+  (* delete steps only remove: index entries shrink, entities disappear, survivors keep their value *)
+  Definition dmono (st st' : state) : Prop :=
+    (forall v i, al_get v (ix st') = Some i -> al_get v (ix st) = Some i) /\
+    (forall i, pres st' i = true -> pres st i = true /\ fbytes st' i = fbytes st i).
+
+  Definition NoEntry (x : id) (st : state) : Prop := forall v, al_get v (ix st) <> Some x.
+
+  Lemma UInv_DInv G st : UInv st -> DInv G st.
+  Proof.
+    intros [HS HC]. split; [exact HS|]. split.
+    - intros i Hp _ Hn. apply HC; [exact Hp | tauto | exact Hn].
+    - intros i j Hi Hj He Hn. pose proof (HC i Hi (fun x => x) Hn) as A.
+      assert (nonempty (fbytes st j) = true) as Hn' by (rewrite <- He; exact Hn).
+      pose proof (HC j Hj (fun x => x) Hn') as B. rewrite He in A. congruence.
+  Qed.
+
+  Lemma DInv_UInv st : DInv (fun _ => False) st -> UInv st.
+  Proof. intros [HS [HC _]]. split; assumption. Qed.
+
+  Lemma DInv_weaken (G G' : id -> Prop) st : (forall i, G i -> G' i) -> DInv G st -> DInv G' st.
+  Proof.
+    intros Hsub [HS [HC HI]]. split; [exact HS|]. split; [|exact HI].
+    intros i Hp Hn. apply HC; [exact Hp | intros Hg; apply Hn, Hsub, Hg].
+  Qed.
+
+  Lemma dmono_refl st : dmono st st.
+  Proof. split; [tauto | intros; split; [assumption | reflexivity]]. Qed.
+
+  Lemma dmono_trans a b c : dmono a b -> dmono b c -> dmono a c.
+  Proof.
+    intros [A1 A2] [B1 B2]. split.
+    - intros v i H. apply A1, B1, H.
+    - intros i H. destruct (B2 i H) as [Hb Hfb]. destruct (A2 i Hb) as [Ha Hfa]. split; [exact Ha | congruence].
+  Qed.
+
+  Lemma same_view_dmono st st' : same_view st st' -> dmono st st'.
+  Proof.
+    intros [Hi [Hp Hf]]. split.
+    - intros v i H. rewrite Hi in H. exact H.
+    - intros i H. rewrite Hp in H. split; [exact H | apply Hf].
+  Qed.
+
+  Lemma DInv_view G st st' : same_view st st' -> DInv G st -> DInv G st'.
+  Proof.
+    intros Hv [HS [HC HI]]. split; [eapply USound_view; eauto|]. split; [eapply UComplete_view; eauto|].
+    destruct Hv as [Hi [Hp Hf]]. intros i j. rewrite !Hp, !Hf. apply HI.
+  Qed.
+
+  Lemma NoEntry_mono x st st' : dmono st st' -> NoEntry x st -> NoEntry x st'.
+  Proof. intros [H1 _] Hn v Hg. apply (Hn v). apply H1. exact Hg. Qed.
+
+  (* specification of the recursive DeleteById used by the cascade constraint *)
+  Definition DelSpec (del : st_ev -> name -> id -> res st_ev) : Prop :=
+    forall G stev s0 x stev', DInv G (fst stev) -> del stev s0 x = Ok stev' ->
+                              DInv G (fst stev') /\ dmono (fst stev) (fst stev').
+
+  Lemma fbytes_nonempty_pres st x : nonempty (fbytes st x) = true -> pres st x = true.
+  Proof.
+    unfold fbytes, pres, get_field, present. rewrite root_s, Hroot.
+    destruct (get_ent st s x); [reflexivity | cbn; discriminate].
+  Qed.
+
+  (* the unique hook of (s,f) on entity x *)
+  Lemma unique_delete_hook G st x :
+    DInv G st -> G x ->
+    let v := fbytes st x in
+    let st' := if nonempty v then set_uidx st s f (al_del v (ix st)) else st in
+    DInv G st' /\ dmono st st' /\ NoEntry x st'.
+  Proof.
+    intros [HS [HC HI]] HG v st'. subst st'. destruct (nonempty v) eqn:En.
+    - assert (pres st x = true) as Hpx by (apply fbytes_nonempty_pres; exact En).
+      split; [|split].
+      + split; [|split].
+        * intros w j Hg. unfold ix, pres, fbytes in *. rewrite uidx_set_uidx in Hg.
+          rewrite present_set_uidx, get_field_set_uidx. rewrite al_get_del in Hg.
+          destruct (str_eqb v w); [discriminate|]. apply HS. exact Hg.
+        * intros j Hp Hn Hne. unfold ix, pres, fbytes in *. rewrite uidx_set_uidx.
+          rewrite present_set_uidx in Hp. rewrite get_field_set_uidx in *. rewrite al_get_del.
+          destruct (str_eqb v (fv_bytes (get_field sch st s j f))) eqn:Ev; [|apply HC; assumption].
+          apply str_eqb_eq in Ev. exfalso. apply Hn.
+          assert (x = j) as <- by (apply HI; [exact Hpx | exact Hp | exact Ev | exact En]). exact HG.
+        * intros i j. unfold pres, fbytes. rewrite !present_set_uidx, !get_field_set_uidx. apply HI.
+      + split.
+        * intros w j Hg. unfold ix in *. rewrite uidx_set_uidx in Hg. rewrite al_get_del in Hg.
+          destruct (str_eqb v w); [discriminate | exact Hg].
+        * intros j Hp. unfold pres, fbytes in *. rewrite present_set_uidx in Hp. rewrite get_field_set_uidx. split; [exact Hp | reflexivity].
+      + intros w Hg. unfold ix in Hg. rewrite uidx_set_uidx in Hg. rewrite al_get_del in Hg.
+        destruct (str_eqb v w) eqn:Ev; [discriminate|]. apply str_eqb_neq in Ev.
+        destruct (HS w x Hg) as [_ [_ Hf]]. apply Ev. exact Hf.
+    - split; [split; [exact HS | split; [exact HC | exact HI]]|]. split; [apply dmono_refl|].
+      intros w Hg. destruct (HS w x Hg) as [Hnw [_ Hf]]. fold v in Hf. rewrite Hf in En. congruence.
+  Qed.
+
+  Variable oc : octx.
+
+  Lemma cascade_loop_spec G del rs f0 i0 : DelSpec del -> forall cands cur cur',
+    DInv G (fst cur) -> cascade_loop sch del rs f0 i0 cands cur = Ok cur' ->
+    DInv G (fst cur') /\ dmono (fst cur) (fst cur').
+  Proof.
+    intros Hdel. induction cands as [|c0 cands IH]; intros cur cur' HD H; cbn [cascade_loop] in H.
+    - inversion H; subst. split; [exact HD | apply dmono_refl].
+    - destruct (casc_matches sch rs f0 i0 (fst cur) c0).
+      + destruct (del cur rs c0) as [cur1|e] eqn:Ed; cbn [bind] in H; [|discriminate].
+        destruct (Hdel G cur rs c0 cur1 HD Ed) as [HD1 Hm1].
+        destruct (IH cur1 cur' HD1 H) as [HD2 Hm2]. split; [exact HD2 | eapply dmono_trans; eauto].
+      + apply IH; assumption.
+  Qed.
+
+  Lemma view_all G st st' : same_view st st' -> DInv G st -> DInv G st' /\ dmono st st'.
+  Proof. intros Hv HD. split; [eapply DInv_view; eauto | apply same_view_dmono; exact Hv]. Qed.
+
+  Lemma bd_one G del st evs c k st' evs' x :
+    DelSpec del -> DInv G st -> (root_of sch (ic_store c) = s -> G x) -> ic_id c = x -> In k (cons_of sch (ic_store c)) ->
+    before_delete_one sch oc del (st, evs) c k = Ok (st', evs') ->
+    DInv G st' /\ dmono st st' /\ ((root_of sch (ic_store c) = s /\ is_ours k) -> NoEntry x st').
+  Proof.
+    intros Hdel HD HG Hx Hin H.
+    assert (Hsame : st' = st -> ~ (root_of sch (ic_store c) = s /\ is_ours k) ->
+                    DInv G st' /\ dmono st st' /\ ((root_of sch (ic_store c) = s /\ is_ours k) -> NoEntry x st')).
+    { intros -> Hn. split; [exact HD|]. split; [apply dmono_refl | intros Ho; contradiction]. }
+    assert (Hview : same_view st st' -> ~ (root_of sch (ic_store c) = s /\ is_ours k) ->
+                    DInv G st' /\ dmono st st' /\ ((root_of sch (ic_store c) = s /\ is_ours k) -> NoEntry x st')).
+    { intros Hv Hn. destruct (view_all G st st' Hv HD) as [A B]. split; [exact A|]. split; [exact B | intros Ho; contradiction]. }
+    destruct k as [f0 nl|f0|f0 t b nl|b|f0 t nl|rs f0 cs|]; cbn [before_delete_one] in H.
+    - (* CUnique *)
+      destruct (name_pair_dec (root_of sch (ic_store c)) f0 s f) as [[Hr ->]|Hne].
+      + assert (ic_store c = s) as Hs by (eapply Hown; eauto).
+        rewrite Hs, Hx, root_s in H. fold (fbytes st x) in H. fold (ix st) in H.
+        pose proof (unique_delete_hook G st x HD (HG Hr)) as Hh. cbn zeta in Hh.
+        destruct (nonempty (fbytes st x)); inversion H; subst st' evs'; destruct Hh as [A [B C]];
+          (split; [exact A|]; split; [exact B | intros _; exact C]).
+      + assert (~ (root_of sch (ic_store c) = s /\ is_ours (CUnique f0 nl))) as Hn.
+        { intros [Hr [nl0 E]]. inversion E; subst. destruct Hne as [Hne|Hne]; contradiction. }
+        destruct (nonempty _); inversion H; subst st' evs'; [|apply Hsame; [reflexivity | exact Hn]].
+        apply Hview; [|exact Hn]. apply fc_eq_view; [apply ents_eq_fc; reflexivity|].
+        unfold ix. cbn. apply upd2_other. exact Hne.
+    - (* CSetIdx *)
+      destruct (negb _); [discriminate|]. inversion H; subst st' evs'.
+      apply Hview; [|intros [_ [nl0 E]]; discriminate].
+      apply fc_eq_view; [apply ents_eq_fc; apply fold_sidx_remove_ents | unfold ix; rewrite fold_sidx_remove_uidx; reflexivity].
+    - (* CFkIndex *)
+      destruct (nonempty _).
+      + destruct (present sch st t _); [|discriminate]. inversion H; subst st' evs'.
+        apply Hview; [|intros [_ [nl0 E]]; discriminate].
+        apply fc_eq_view; [apply backref_del_fc | unfold ix; rewrite backref_del_uidx; reflexivity].
+      + inversion H; subst st' evs'. apply Hsame; [reflexivity | intros [_ [nl0 E]]; discriminate].
+    - destruct (get_set sch st (ic_store c) (ic_id c) b); [|discriminate].
+      inversion H; subst st' evs'. apply Hsame; [reflexivity | intros [_ [nl0 E]]; discriminate].
+    - inversion H; subst st' evs'. apply Hsame; [reflexivity | intros [_ [nl0 E]]; discriminate].
+    - (* CFkCascade *)
+      destruct cs.
+      + destruct (existsb _ _); [discriminate|]. inversion H; subst st' evs'.
+        apply Hsame; [reflexivity | intros [_ [nl0 E]]; discriminate].
+      + destruct (cascade_loop_spec G del rs f0 (ic_id c) Hdel _ (st, evs) (st', evs') HD H) as [A B].
+        split; [exact A|]. split; [exact B | intros [_ [nl0 E]]; discriminate].
+    - (* CSystem *)
+      destruct (get_field sch st (ic_store c) (ic_id c) isSystemF) as [| |y|[|]];
+        try (inversion H; subst st' evs'; apply Hsame; [reflexivity | intros [_ [nl0 E]]; discriminate]).
+      destruct (oc_sys oc); [|discriminate].
+      inversion H; subst st' evs'; apply Hsame; [reflexivity | intros [_ [nl0 E]]; discriminate].
+  Qed.
+
+  Lemma bd_all (G : id -> Prop) del x c : DelSpec del -> (root_of sch (ic_store c) = s -> G x) -> ic_id c = x -> forall ks st evs st' evs',
+    incl ks (cons_of sch (ic_store c)) -> DInv G st ->
+    before_delete_all sch oc del (st, evs) c ks = Ok (st', evs') ->
+    DInv G st' /\ dmono st st' /\
+    (((root_of sch (ic_store c) = s /\ Exists is_ours ks) \/ NoEntry x st) -> NoEntry x st').
+  Proof.
+    intros Hdel HG Hx. induction ks as [|k ks IH]; intros st evs st' evs' Hincl HD H; cbn [before_delete_all] in H.
+    - inversion H; subst. split; [exact HD|]. split; [apply dmono_refl|].
+      intros [[_ He]|Hn]; [inversion He | exact Hn].
+    - destruct (before_delete_one sch oc del (st, evs) c k) as [[st1 evs1]|e] eqn:E1; cbn [bind] in H; [|discriminate].
+      assert (In k (cons_of sch (ic_store c))) as Hin by (apply Hincl; left; reflexivity).
+      destruct (bd_one G del st evs c k st1 evs1 x Hdel HD HG Hx Hin E1) as [HD1 [Hm1 Hn1]].
+      assert (incl ks (cons_of sch (ic_store c))) as Hincl' by (intros y Hy; apply Hincl; right; exact Hy).
+      destruct (IH st1 evs1 st' evs' Hincl' HD1 H) as [HD2 [Hm2 Hn2]].
+      split; [exact HD2|]. split; [eapply dmono_trans; eauto|].
+      intros [[Hr He]|Hn].
+      + inversion He as [? ? Hk|? ? Hk]; subst.
+        * apply Hn2. right. apply Hn1. split; assumption.
+        * apply Hn2. left. split; assumption.
+      + apply Hn2. right. eapply NoEntry_mono; eauto.
+  Qed.
+
+  Lemma bd_chain (G : id -> Prop) del x : DelSpec del -> forall ch st evs st' evs',
+    (forall s' ks, In (s', ks) ch -> ks = cons_of sch s' /\ (root_of sch s' = s -> G x)) -> DInv G st ->
+    before_delete_chain sch oc del x ch (st, evs) = Ok (st', evs') ->
+    DInv G st' /\ dmono st st' /\
+    (((exists s', In (s', cons_of sch s') ch /\ root_of sch s' = s /\ Exists is_ours (cons_of sch s')) \/ NoEntry x st) -> NoEntry x st').
+  Proof.
+    intros Hdel. induction ch as [|[s' ks] ch IH]; intros st evs st' evs' Hch HD H; cbn [before_delete_chain] in H.
+    - inversion H; subst. split; [exact HD|]. split; [apply dmono_refl|].
+      intros [[s' [[] _]]|Hn]. exact Hn.
+    - destruct (before_delete_all sch oc del (st, evs) _ ks) as [[st1 evs1]|e] eqn:E1; cbn [bind] in H; [|discriminate].
+      destruct (Hch s' ks (or_introl eq_refl)) as [-> HGs].
+      destruct (bd_all G del x (mkIctx false (oc_sys oc) s' x) Hdel HGs eq_refl _ st evs st1 evs1 (incl_refl _) HD E1) as [HD1 [Hm1 Hn1]].
+      assert (forall s2 ks2, In (s2, ks2) ch -> ks2 = cons_of sch s2 /\ (root_of sch s2 = s -> G x)) as Hch' by (intros; apply Hch; right; assumption).
+      destruct (IH st1 evs1 st' evs' Hch' HD1 H) as [HD2 [Hm2 Hn2]].
+      split; [exact HD2|]. split; [eapply dmono_trans; eauto|].
+      intros [[s2 [Hin [Hr He]]]|Hn].
+      + destruct Hin as [Hin|Hin].
+        * inversion Hin; subst s2. apply Hn2. right. apply Hn1. left. cbn. split; assumption.
+        * apply Hn2. left. exists s2. repeat split; assumption.
+      + apply Hn2. right. eapply NoEntry_mono; eauto.
+  Qed.
+
+  Lemma cleanup_links_view st s0 x : same_view st (cleanup_links sch st s0 x).
+  Proof.
+    unfold cleanup_links. destruct (find_store sch s0) as [d|]; [|apply same_view_refl].
+    generalize (sd_links d). intros ls. revert st. induction ls as [|[[lf os] of_] ls IH]; intros st; cbn [fold_left].
+    - apply same_view_refl.
+    - eapply same_view_trans; [|apply IH].
+      generalize (get_set sch st s0 x lf). intros ms. revert st. induction ms as [|m ms IHm]; intros st; cbn [fold_left].
+      + apply same_view_refl.
+      + eapply same_view_trans; [|apply IHm]. apply fc_eq_view; [apply backref_del_fc | unfold ix; rewrite backref_del_uidx; reflexivity].
+  Qed.
+
+  Lemma ours_in_cons_s : Exists is_ours (cons_of sch s).
+  Proof.
+    destruct Honce as [nl [pre [post [Hc _]]]]. rewrite Hc. apply Exists_exists.
+    exists (CUnique f nl). split; [apply in_or_app; right; left; reflexivity | exists nl; reflexivity].
+  Qed.
+
+  Lemma process_delete_spec (G : id -> Prop) del x s0 st evs st' evs' :
+    DelSpec del -> (root_of sch s0 = s -> G x) -> DInv G st ->
+    process_delete sch oc del (st, evs) s0 x = Ok (st', evs') ->
+    DInv G st' /\ dmono st st' /\ ((root_of sch s0 = s \/ NoEntry x st) -> NoEntry x st').
+  Proof.
+    intros Hdel HG HD H. unfold process_delete in H.
+    destruct (before_delete_chain sch oc del x (chain sch s0) (st, evs)) as [[st1 evs1]|e] eqn:E1; cbn [bind] in H; [|discriminate].
+    inversion H; subst st' evs'. clear H.
+    assert (forall s' ks, In (s', ks) (chain sch s0) -> ks = cons_of sch s' /\ (root_of sch s' = s -> G x)) as Hch
+      by (intros s' ks Hin; apply chain_in in Hin as [A B]; split; [exact A | intros Hr; apply HG; congruence]).
+    destruct (bd_chain G del x Hdel _ st evs st1 evs1 Hch HD E1) as [HD1 [Hm1 Hn1]].
+    pose proof (cleanup_links_view st1 s0 x) as Hv.
+    destruct (view_all G _ _ Hv HD1) as [HD2 Hm2]. cbn [fst].
+    split; [exact HD2|]. split; [eapply dmono_trans; eauto|].
+    intros Hor. eapply NoEntry_mono; [exact Hm2|]. apply Hn1. destruct Hor as [Hr|Hn]; [|right; exact Hn].
+    left. exists s. split; [|split; [apply root_s | apply ours_in_cons_s]].
+    unfold chain. destruct (is_child sch s0) eqn:Ec.
+    - rewrite Hr. left. reflexivity.
+    - assert (s0 = s) as -> by (unfold root_of, is_child in *; destruct (find_store sch s0) as [d|]; [destruct (sd_parent d); [discriminate|exact Hr] | exact Hr]).
+      left. reflexivity.
+  Qed.
+
+  Lemma children_delete_spec (G : id -> Prop) del x r0 : DelSpec del -> (r0 = s -> G x) ->
+    forall cs cur flows cur' flows',
+    (forall d, In d cs -> root_of sch (sd_name d) = r0) -> DInv G (fst cur) ->
+    children_delete sch oc del x cs cur flows = Ok (cur', flows') ->
+    DInv G (fst cur') /\ dmono (fst cur) (fst cur').
+  Proof.
+    intros Hdel HG. induction cs as [|d cs IH]; intros cur flows cur' flows' Hcs HD H; cbn [children_delete] in H.
+    - inversion H; subst. split; [exact HD | apply dmono_refl].
+    - assert (forall d0, In d0 cs -> root_of sch (sd_name d0) = r0) as Hcs' by (intros; apply Hcs; right; assumption).
+      destruct (loadable sch (fst cur) (sd_name d) x); [|eapply IH; eauto].
+      destruct cur as [st evs].
+      destruct (process_delete sch oc del (st, evs) (sd_name d) x) as [[st1 evs1]|e] eqn:E1; cbn [bind] in H; [|discriminate].
+      assert (root_of sch (sd_name d) = s -> G x) as HG1 by (intros Hr; apply HG; rewrite <- Hr; symmetry; apply Hcs; left; reflexivity).
+      destruct (process_delete_spec G del x _ st evs st1 evs1 Hdel HG1 HD E1) as [HD1 [Hm1 _]].
+      destruct (IH (st1, evs1) _ cur' flows' Hcs' HD1 H) as [HD2 Hm2].
+      split; [exact HD2 | eapply dmono_trans; eauto].
+  Qed.
+
+  (* store names are unique: the children listed for a root really have that root *)
+  Hypothesis Hchildren : forall r0 d, In d (children_of sch r0) -> root_of sch (sd_name d) = r0.
+
+  Lemma del_ent_other_view st r0 i : r0 <> s -> same_view st (del_ent st r0 i).
+  Proof.
+    intros Hne. split; [reflexivity|]. split; intros j.
+    - unfold pres, present. rewrite root_s, get_ent_del_ent.
+      assert (str_eqb r0 s = false) as -> by (apply str_eqb_neq; exact Hne). reflexivity.
+    - unfold fbytes, get_field. rewrite root_s, get_ent_del_ent.
+      assert (str_eqb r0 s = false) as -> by (apply str_eqb_neq; exact Hne). reflexivity.
+  Qed.
+
+  Lemma pres_del_ent st i j : pres (del_ent st s i) j = if str_eqb i j then false else pres st j.
+  Proof.
+    unfold pres, present. rewrite root_s, Hroot, get_ent_del_ent, str_eqb_refl. cbn [andb].
+    destruct (str_eqb i j); reflexivity.
+  Qed.
+
+  Lemma fbytes_del_ent_other st i j : i <> j -> fbytes (del_ent st s i) j = fbytes st j.
+  Proof.
+    intros Hne. unfold fbytes, get_field. rewrite root_s, get_ent_del_ent, str_eqb_refl. cbn [andb].
+    assert (str_eqb i j = false) as -> by (apply str_eqb_neq; exact Hne). reflexivity.
+  Qed.
+
+  (* removing entity x of store s once no index entry points to it *)
+  Lemma del_ent_spec (G G' : id -> Prop) st x :
+    (forall i, G' i -> G i \/ i = x) -> DInv G' st -> NoEntry x st ->
+    DInv G (del_ent st s x) /\ dmono st (del_ent st s x).
+  Proof.
+    intros Hsub [HS [HC HI]] Hn. change (ix (del_ent st s x)) with (ix st) in *. split; [split; [|split]|split].
+    - intros v j Hg. change (ix (del_ent st s x)) with (ix st) in Hg.
+      assert (j <> x) as Hj by (intros ->; exact (Hn v Hg)).
+      destruct (HS v j Hg) as [A [B C]]. rewrite pres_del_ent, fbytes_del_ent_other by congruence.
+      assert (str_eqb x j = false) as -> by (apply str_eqb_neq; congruence). tauto.
+    - intros j Hp HG Hne. rewrite pres_del_ent in Hp. destruct (str_eqb x j) eqn:E; [discriminate|].
+      apply str_eqb_neq in E. rewrite fbytes_del_ent_other in * by exact E.
+      change (ix (del_ent st s x)) with (ix st). apply HC; [exact Hp | | exact Hne].
+      intros Hg'. destruct (Hsub j Hg') as [Hg|Hg]; [exact (HG Hg) | congruence].
+    - intros i j Hi Hj. rewrite pres_del_ent in Hi, Hj.
+      destruct (str_eqb x i) eqn:Ei; [discriminate|]. destruct (str_eqb x j) eqn:Ej; [discriminate|].
+      apply str_eqb_neq in Ei, Ej. rewrite !fbytes_del_ent_other by assumption. apply HI; assumption.
+    - intros v i H. exact H.
+    - intros i Hp. rewrite pres_del_ent in Hp. destruct (str_eqb x i) eqn:E; [discriminate|].
+      apply str_eqb_neq in E. split; [exact Hp | apply fbytes_del_ent_other; exact E].
+  Qed.
+
+  (* DeleteById, for every amount of fuel *)
+  Lemma delete_spec : forall n, DelSpec (delete_by_id sch oc n).
+  Proof.
+    induction n as [|n IH]; intros G stev s0 x stev' HD H; cbn [delete_by_id] in H; [discriminate|].
+    destruct stev as [st evs]. cbn [fst] in *.
+    set (r0 := root_of sch s0) in *.
+    destruct (present sch st r0 x) eqn:Epx; cbn [negb] in H; [|discriminate].
+    destruct (children_delete sch oc (delete_by_id sch oc n) x (children_of sch r0) (st, evs) []) as [[[st1 evs1] flows]|e] eqn:Ech;
+      cbn [bind] in H; [|discriminate].
+    set (G' := fun i => G i \/ (r0 = s /\ i = x)).
+    assert (DInv G' st) as HD' by (eapply DInv_weaken; [|exact HD]; intros i Hg; left; exact Hg).
+    assert (r0 = s -> G' x) as HG' by (intros Hr; right; split; [exact Hr | reflexivity]).
+    destruct (children_delete_spec G' _ x r0 IH HG' _ (st, evs) [] (st1, evs1) flows (Hchildren r0) HD' Ech) as [HD1 Hm1].
+    cbn [fst] in *.
+    destruct (present sch st1 r0 x) eqn:Epx1; cbn [negb] in H.
+    - (* the normal path *)
+      destruct (process_delete sch oc (delete_by_id sch oc n) (st1, evs1) r0 x) as [[st2 evs2]|e] eqn:Epd; cbn [bind] in H; [|discriminate].
+      assert (root_of sch r0 = s -> G' x) as HG'' by (intros Hr; apply HG'; subst r0; rewrite Hroots in Hr; exact Hr).
+      destruct (process_delete_spec G' _ x r0 st1 evs1 st2 evs2 IH HG'' HD1 Epd) as [HD2 [Hm2 Hn2]].
+      cbn [fst snd] in H.
+      destruct (fire (oc_vetoes oc) evs2 r0 Deleted x _) as [evs3|e]; cbn [bind] in H; [|discriminate].
+      destruct (fire_flows oc x flows evs3) as [evs4|e]; cbn [bind] in H; [|discriminate].
+      inversion H; subst stev'. clear H. cbn [fst].
+      destruct (str_eq_dec r0 s) as [Hr|Hr].
+      + assert (NoEntry x st2) as Hne by (apply Hn2; left; subst r0; rewrite Hroots; exact Hr).
+        rewrite Hr.
+        destruct (del_ent_spec G G' st2 x) as [A B]; [|exact HD2|exact Hne|].
+        * intros i [Hg|[_ ->]]; [left; exact Hg | right; reflexivity].
+        * split; [exact A | eapply dmono_trans; [exact Hm1 | eapply dmono_trans; [exact Hm2 | exact B]]].
+      + pose proof (del_ent_other_view st2 r0 x Hr) as Hv.
+        assert (DInv G st2) as HDg by (eapply DInv_weaken; [|exact HD2]; intros i [Hg|[E _]]; [exact Hg | contradiction]).
+        destruct (view_all G _ _ Hv HDg) as [A B].
+        split; [exact A | eapply dmono_trans; [exact Hm1 | eapply dmono_trans; [exact Hm2 | exact B]]].
+    - (* the entity vanished while its child stores were processed (cascade cycle) *)
+      inversion H; subst stev'. clear H. cbn [fst]. split; [|exact Hm1].
+      destruct HD1 as [HS [HC HI]]. split; [exact HS|]. split; [|exact HI].
+      intros j Hp Hg Hne. apply HC; [exact Hp | | exact Hne].
+      intros [Hg'|[Hr ->]]; [exact (Hg Hg')|].
+      subst r0. unfold pres in Hp. rewrite <- Hr in Hp at 1. 
+      assert (present sch st1 (root_of sch s0) x = true) as Hc.
+      { unfold present in *. rewrite Hroots. rewrite Hr in *. rewrite root_s in Hp. rewrite Hroot in *.
+        destruct (get_ent st1 s x); [|discriminate]. destruct (is_child sch s); reflexivity. }
+      congruence.
+  Qed.
+  (* ---- every operation, transaction and history ---- *)
+  Lemma run_op_inv fuel st evs o st' evs' :
+    UInv st -> run_op sch fuel oc (st, evs) o = Ok (st', evs') -> UInv st'.
+  Proof.
+    intros HU H. destruct o as [s0 i sys fv sv|s0 i fv sv ch|s0 i|s0 i lf ts|s0 i lf ts|]; cbn [run_op] in H.
+    - eapply op_create_inv; eauto.
+    - eapply op_update_inv; eauto.
+    - apply DInv_UInv. destruct (delete_spec fuel (fun _ => False) (st, evs) s0 i (st', evs')) as [A _];
+        [apply UInv_DInv; exact HU | exact H | exact A].
+    - cbn [fst snd] in H. destruct (op_add_links sch st s0 i lf ts) as [st1|e] eqn:E; cbn [bind] in H; [|discriminate].
+      inversion H; subst. eapply UInv_view; [eapply op_add_links_view; eauto | exact HU].
+    - cbn [fst snd] in H. destruct (op_remove_links sch st s0 i lf ts) as [st1|e] eqn:E; cbn [bind] in H; [|discriminate].
+      inversion H; subst. eapply UInv_view; [eapply op_remove_links_view; eauto | exact HU].
+    - discriminate.
+  Qed.
 End Unique.
+
+(* operations carry their own context, so the invariant lifts to op lists, transactions, histories *)
+Section UniqueHistories.
+  Variable sch : schema.
+  Variable s f : name.
+  Hypothesis Hroot : is_child sch s = false.
+  Hypothesis Hroots : forall x, root_of sch (root_of sch x) = root_of sch x.
+  Hypothesis Hown : forall s' nl, root_of sch s' = s -> In (CUnique f nl) (cons_of sch s') -> s' = s.
+  Hypothesis Honce : exists nl pre post,
+    cons_of sch s = pre ++ CUnique f nl :: post /\ Forall (fun k => ~ is_ours f k) pre /\ Forall (fun k => ~ is_ours f k) post.
+  Hypothesis Hchildren : forall r0 d, In d (children_of sch r0) -> root_of sch (sd_name d) = r0.
+
+  Lemma run_ops_inv fuel oc : forall ops st evs rs st' evs',
+    UInv sch s f st -> run_ops sch fuel oc (st, evs) ops = (rs, Ok (st', evs')) -> UInv sch s f st'.
+  Proof.
+    induction ops as [|o ops IH]; intros st evs rs st' evs' HU H; cbn [run_ops] in H.
+    - inversion H; subst. exact HU.
+    - destruct (run_op sch fuel oc (st, evs) o) as [[st1 evs1]|e] eqn:E1; [|inversion H].
+      destruct (run_ops sch fuel oc (st1, evs1) ops) as [rs1 fin] eqn:E2. inversion H; subst.
+      eapply IH; [|exact E2]. eapply (run_op_inv sch s f Hroot Hroots Hown Honce oc Hchildren); eauto.
+  Qed.
+
+  Lemma run_tx_inv fuel st t : UInv sch s f st ->
+    UInv sch s f (match run_tx sch fuel st t with (_, _, st', _) => st' end).
+  Proof.
+    intros HU. unfold run_tx.
+    destruct (run_ops sch fuel _ (st, []) (tx_ops t)) as [rs fin] eqn:E. destruct fin as [[st1 evs1]|e]; [|exact HU].
+    destruct (tx_precommit_fails t); [exact HU|]. eapply run_ops_inv; eauto.
+  Qed.
+
+  Lemma run_txs_inv fuel : forall ts st, UInv sch s f st -> UInv sch s f (run_txs sch fuel st ts).
+  Proof.
+    unfold run_txs. induction ts as [|t ts IH]; intros st HU; cbn [fold_left]; [exact HU|].
+    apply IH. apply run_tx_inv. exact HU.
+  Qed.
+
+  Lemma UInv_empty : UInv sch s f st_empty.
+  Proof.
+    split.
+    - intros v i H. cbn in H. discriminate.
+    - intros i H. unfold pres, present in H. cbn in H. discriminate.
+  Qed.
+
+  (* the index mirrors the entities in every reachable state *)
+  Lemma unique_index_mirrors_lemma fuel ts :
+    let st := run_txs sch fuel st_empty ts in
+    forall v i, al_get v (uidx st s f) = Some i <->
+                (nonempty v = true /\ present sch st s i = true /\ fv_bytes (get_field sch st s i f) = v).
+  Proof.
+    intros st v i. destruct (run_txs_inv fuel ts st_empty UInv_empty) as [HS HC]. fold st in HS, HC. split.
+    - apply HS.
+    - intros [Hn [Hp Hf]]. specialize (HC i Hp (fun x => x)). unfold fbytes in HC. rewrite Hf in HC. apply HC. exact Hn.
+  Qed.
+
+  (* hence no two entities ever hold the same non-empty value *)
+  Lemma unique_values_distinct_lemma fuel ts :
+    let st := run_txs sch fuel st_empty ts in
+    forall i j, present sch st s i = true -> present sch st s j = true ->
+                fv_bytes (get_field sch st s i f) = fv_bytes (get_field sch st s j f) ->
+                nonempty (fv_bytes (get_field sch st s i f)) = true -> i = j.
+  Proof.
+    intros st i j Hi Hj He Hn.
+    pose proof (UInv_DInv sch s f (fun _ => False) st (run_txs_inv fuel ts st_empty UInv_empty)) as [_ [_ HI]].
+    apply HI; assumption.
+  Qed.
+End UniqueHistories.
